@@ -141,6 +141,9 @@ func vfC11GenConn(rt *rapid.T, i int) vfC11Conn {
 	n := rapid.SampledFrom([]int{0, 1, 1, 1, 2, 2, 2, 3}).Draw(rt, "nsubs")
 	for j := 0; j < n; j++ {
 		s := vfC11Sub{Kind: rapid.SampledFrom([]int{0, 1, 2, 2, 3, 3, 4}).Draw(rt, "subkind")}
+		if i == 0 && j == 0 && s.Kind == 4 {
+			s.Kind = 2 // the first connection always has a gate after its hub registration
+		}
 		if s.Kind == 0 {
 			s.Recover = rapid.Bool().Draw(rt, "recover")
 		}
@@ -149,8 +152,8 @@ func vfC11GenConn(rt *rapid.T, i int) vfC11Conn {
 		}
 		c.Subs = append(c.Subs, s)
 	}
-	c.GateConnecting = rapid.IntRange(0, 2).Draw(rt, "gateConnecting") == 0
-	c.Refuse = rapid.SampledFrom([]int{0, 0, 0, 0, 0, 0, 0, 0, 1, 2, 3, 4}).Draw(rt, "refuse")
+	c.GateConnecting = rapid.IntRange(0, 3).Draw(rt, "gateConnecting") == 0
+	c.Refuse = rapid.SampledFrom([]int{0, 0, 0, 0, 0, 0, 0, 0, 0, 0, 0, 0, 1, 2, 3, 4}).Draw(rt, "refuse")
 	c.WriteDelayMs = rapid.SampledFrom([]int{0, 0, 0, 20}).Draw(rt, "writeDelay")
 	c.WriteTimer = rapid.Bool().Draw(rt, "writeTimer")
 	c.OnConnectPush = rapid.Bool().Draw(rt, "onConnectPush")
@@ -1368,6 +1371,12 @@ func vfC11RunD(t *testing.T, cs vfC11DCase, out *vfC11Out, isKnown func(string) 
 		counter := 0
 		publish := func(hist bool) {
 			if subCh == "" {
+				// no subscription to publish to: a message push instead (once the connect has returned)
+				if returned.Load() {
+					for _, cl := range w.node.hub.UserConnections(user) {
+						_ = cl.Send([]byte(`{"m":2}`))
+					}
+				}
 				return
 			}
 			counter++
